@@ -128,3 +128,273 @@ def even_spread(t, total, n):
     if kr is None:
         return dict(ok=False, why='the number of larger shares %s is not %s %% %s' % (show(r), show(total), show(n)))
     return dict(ok=True, why='', coerced=(kq == 'int'), q=q, r=r)
+
+
+# ---- consecutive blocks: which lecturer offers which project ---------------------------------------------------------
+def blocks_of(t, total, n):
+    """t = list of length `total` in which agent k (0-based, ascending) owns a consecutive block of share(k) = floor(total/n)
+    + (1 if k < total % n) entries holding k + 1.  Recognised constructions:
+       [k+1 for k in range(n) for _ in range(share[k])]            (shares an even-spread list; loops or comprehension)
+       extend([k+1] * share(k)) for k in range(n)                   (share(k) closed form or from an even-spread list)
+       out[j] = k+1 for k in range(n) for j in range(F[k], F[k+1])  with F[0] = 0 and F[k+1] - F[k] = share(k)  (prefix offsets)
+    -> dict(ok=bool, why=str, unknown=bool)"""
+    from .poly import pconst, patom, padd, psub, pmul, pshow
+    c = t
+    if c[0] == 'cat':
+        parts = [x for x in c[1] if x != ('list', ())]
+        c = parts[0] if len(parts) == 1 else c
+    UNK = dict(ok=False, unknown=True, why='not a recognised block assignment: ' + show(t)[:140])
+
+    def share_closed(sh, k):
+        """sh is share(k) in closed form: q + (1 if k < r else 0) | ite(k < r, q+1, q) -> True/False/None"""
+        q = r = None
+        def lt_bound(g):
+            if g[0] == 'cmp' and g[1] == 'Lt' and g[2] == k: return g[3]
+            if g[0] == 'cmp' and g[1] == 'Gt' and g[3] == k: return g[2]
+            if g[0] == 'cmp' and g[1] == 'LtE' and g[2] == k and g[3][0] == 'bin' and g[3][1] == 'Sub' and g[3][3] == C(1): return g[3][2]
+            return None
+        if sh[0] == 'ite':
+            r = lt_bound(sh[1])
+            hi, lo = sh[2], sh[3]
+            if r is not None and hi in (BIN('Add', lo, C(1)), BIN('Add', C(1), lo)):
+                q = lo
+        elif sh[0] == 'bin' and sh[1] == 'Add':
+            for base_, inc in ((sh[2], sh[3]), (sh[3], sh[2])):
+                if inc[0] == 'ite' and inc[2] == C(1) and inc[3] == C(0):
+                    r, q = lt_bound(inc[1]), base_
+                elif inc[0] == 'cmp':
+                    r, q = lt_bound(inc), base_
+                elif inc[0] == 'call' and inc[1] == S('int') and len(inc[2]) == 1 and inc[2][0][0] == 'cmp':
+                    r, q = lt_bound(inc[2][0]), base_
+        if q is None or r is None:
+            return None
+        return quotient_of(q, total, n) is not None and remainder_of(r, total, n) is not None
+
+    def share_term(cnt, k):
+        """cnt = number of entries of agent k -> True / False / None(unknown)"""
+        if cnt[0] == 'idx' and cnt[2] == k:
+            r = even_spread(cnt[1], total, n)
+            if r.get('unknown'):
+                return None
+            return r['ok']
+        return share_closed(cnt, k)
+
+    def agent_binder(b):
+        """-> the 0-based agent index term for this binder, or None"""
+        d = b[3]
+        if d[0] == 'call' and d[1] == S('range') and len(d[2]) == 1 and d[2][0] == n:
+            return b, 0
+        if d[0] == 'call' and d[1] == S('range') and len(d[2]) == 2 and d[2][0] == C(1) and d[2][1] in (BIN('Add', n, C(1)), BIN('Add', C(1), n)):
+            return b, 1                                   # for k in range(1, n + 1): 1-based id
+        return None
+
+    # -- comprehension / nested append
+    if c[0] == 'comp' and len(c[1]) == 2 and c[1][0][1] == TRUE and c[1][1][1] == TRUE:
+        kb, jb = c[1][0][0], c[1][1][0]
+        if jb[3][0] == 'call' and jb[3][1] == S('range') and len(jb[3][2]) == 1:
+            cnt = jb[3][2][0]
+            ab = agent_binder(kb)
+            if ab is not None:
+                k, base = ab
+                want_val = [k] if base == 1 else [BIN('Add', k, C(1)), BIN('Add', C(1), k)]
+                if c[2] in want_val:
+                    kk = k if base == 0 else BIN('Sub', k, C(1))
+                    cnt0 = cnt if base == 0 else cnt
+                    ok = share_term(cnt, k) if base == 0 else share_closed_shift(cnt, k, total, n)
+                    if ok is None:
+                        return UNK
+                    return dict(ok=ok, why='' if ok else 'agent k gets %s entries, not floor(total/n) + (1 if k < total %% n)' % show(cnt)[:80])
+            if cnt == kb and c[2] in (BIN('Add', ('indexof', kb), C(1)), BIN('Add', C(1), ('indexof', kb))):
+                r = even_spread(kb[3], total, n)            # for k, share in enumerate(shares): for _ in range(share)
+                if r.get('unknown'):
+                    return UNK
+                return dict(ok=r['ok'], why=r['why'])
+    # -- constant block size:  [j // B + 1 for j in range(total)]
+    if c[0] == 'comp' and len(c[1]) == 1 and c[1][0][1] == TRUE:
+        jb = c[1][0][0]
+        if jb[3] == CALL(S('range'), [total]):
+            v = c[2]
+            if v[0] == 'bin' and v[1] == 'Add' and C(1) in (v[2], v[3]):
+                v = v[2] if v[3] == C(1) else v[3]
+                if v[0] == 'bin' and v[1] == 'FloorDiv' and v[2] == jb and not contains(v[3], lambda x: x == jb):
+                    return dict(ok=False, why='every agent gets a block of the same size %s (the last ones what is left): for total %% n != 0 the shares are not floor/ceil balanced, '
+                                               'e.g. 7 over 3 gives 3,3,1 and 11 over 5 leaves an agent without any' % show(v[3])[:60])
+    # -- extend([v] * count) per agent
+    if c[0] == 'accum' and c[1] == ('list', ()) and len(c[2]) == 1 and c[2][0][0] == 'extend' and len(c[2][0][3]) == 1 and c[2][0][3][0][1] == TRUE:
+        op, _, val, ch = c[2][0]
+        kb = ch[0][0]
+        if val[0] == 'bin' and val[1] == 'Mult':
+            for lst, cnt in ((val[2], val[3]), (val[3], val[2])):
+                if lst[0] == 'list' and len(lst[1]) == 1:
+                    ab = agent_binder(kb)
+                    if ab is not None:
+                        k, base = ab
+                        if lst[1][0] in ([k] if base == 1 else [BIN('Add', k, C(1)), BIN('Add', C(1), k)]):
+                            ok = share_term(cnt, k) if base == 0 else share_closed_shift(cnt, k, total, n)
+                            if ok is None:
+                                return UNK
+                            return dict(ok=ok, why='' if ok else 'agent k gets %s entries' % show(cnt)[:80])
+                    if kb[3][0] != 'call' and cnt == kb and lst[1][0] in (BIN('Add', ('indexof', kb), C(1)), BIN('Add', C(1), ('indexof', kb))):
+                        r = even_spread(kb[3], total, n)
+                        if r.get('unknown'):
+                            return UNK
+                        return dict(ok=r['ok'], why=r['why'])
+    # -- scatter of consecutive blocks given by prefix offsets
+    if c[0] == 'accum' and len(c[2]) == 1 and c[2][0][0] == 'setidx' and len(c[2][0][3]) == 2:
+        op, idx, val, ch = c[2][0]
+        (kb, g0), (jb, g1) = ch
+        ab = agent_binder(kb)
+        pre_len = None
+        if c[1][0] == 'bin' and c[1][1] == 'Mult':
+            for lst, ln in ((c[1][2], c[1][3]), (c[1][3], c[1][2])):
+                if lst[0] == 'list' and len(lst[1]) == 1:
+                    pre_len = ln
+        if ab is not None and ab[1] == 0 and g0 == TRUE and g1 == TRUE and idx == jb and val in (BIN('Add', kb, C(1)), BIN('Add', C(1), kb)) and pre_len == total \
+                and jb[3][0] == 'call' and jb[3][1] == S('range') and len(jb[3][2]) == 2:
+            lo, hi = jb[3][2]
+            F = None
+            if lo[0] == 'idx' and hi[0] == 'idx' and lo[1] == hi[1] and lo[2] == kb and hi[2] in (BIN('Add', kb, C(1)), BIN('Add', C(1), kb)):
+                F = lo[1]
+            if F is not None and F[0] == 'comp' and len(F[1]) == 1 and F[1][0][1] == TRUE:
+                fb = F[1][0][0]
+                f = F[2]
+                res = prefix_offsets_ok(f, fb, total, n)
+                if res is None:
+                    return UNK
+                return dict(ok=res, why='' if res else 'block starts %s are not the prefix sums of the even shares' % show(f)[:80])
+    return UNK
+
+
+def share_closed_shift(cnt, k, total, n):
+    """share for a 1-based agent id k: q + (1 if k <= r else 0)"""
+    if cnt[0] == 'ite' and cnt[1][0] == 'cmp' and cnt[1][1] == 'LtE' and cnt[1][2] == k:
+        r, hi, lo = cnt[1][3], cnt[2], cnt[3]
+        if hi in (BIN('Add', lo, C(1)), BIN('Add', C(1), lo)):
+            return quotient_of(lo, total, n) is not None and remainder_of(r, total, n) is not None
+    if cnt[0] == 'bin' and cnt[1] == 'Add':
+        for base_, inc in ((cnt[2], cnt[3]), (cnt[3], cnt[2])):
+            g = inc[1] if (inc[0] == 'ite' and inc[2] == C(1) and inc[3] == C(0)) else (inc if inc[0] == 'cmp' else None)
+            if g is not None and g[0] == 'cmp' and g[1] == 'LtE' and g[2] == k:
+                return quotient_of(base_, total, n) is not None and remainder_of(g[3], total, n) is not None
+    return None
+
+
+def prefix_offsets_ok(f, b, total, n):
+    """f(b) (b the comprehension variable) gives the first entry of agent b's block.  Decide f(0) == 0 and
+    f(k+1) - f(k) == q + [k < r]  by case analysis k < r / k >= r, resolving min(), max() and conditionals on k vs r under
+    the case.  -> True / False / None (outside the fragment)"""
+    from .poly import pconst, patom, padd, psub, pmul, pkey
+
+    class Out(Exception):
+        pass
+
+    def kind(t):
+        if quotient_of(t, total, n) is not None:
+            return 'q'
+        if remainder_of(t, total, n) is not None:
+            return 'r'
+        return None
+
+    def ev(t, kval, case):
+        """polynomial over atoms k, q, r of term t with the variable b := kval (a polynomial), under case 'lt' (k < r) or 'ge'"""
+        if t == b:
+            return kval
+        kd = kind(t)
+        if kd:
+            return patom(kd)
+        if t[0] == 'const' and isinstance(t[1], int) and not isinstance(t[1], bool):
+            return pconst(t[1])
+        if t[0] == 'bin' and t[1] in ('Add', 'Sub', 'Mult'):
+            x, y = ev(t[2], kval, case), ev(t[3], kval, case)
+            return {'Add': padd, 'Sub': psub, 'Mult': pmul}[t[1]](x, y)
+        if t[0] == 'call' and t[1] in (S('min'), S('max')) and len(t[2]) == 2:
+            x, y = ev(t[2][0], kval, case), ev(t[2][1], kval, case)
+            s = sign(psub(x, y), case)
+            if s is None:
+                raise Out()
+            if t[1] == S('min'):
+                return x if s <= 0 else y
+            return x if s >= 0 else y
+        if t[0] == 'ite' and t[1][0] == 'cmp':
+            x, y = ev(t[1][2], kval, case), ev(t[1][3], kval, case)
+            s = sign(psub(x, y), case)
+            if s is None:
+                raise Out()
+            op = t[1][1]
+            # weak signs (+-1) decide only the non-strict / complementary questions
+            table = {'Lt': {-2: True, 0: False, 1: False, 2: False}, 'LtE': {-2: True, -1: True, 0: True, 2: False},
+                     'Gt': {2: True, 0: False, -1: False, -2: False}, 'GtE': {2: True, 1: True, 0: True, -2: False},
+                     'Eq': {0: True, 2: False, -2: False}, 'NotEq': {0: False, 2: True, -2: True}}
+            truth = table.get(op, {}).get(s)
+            if truth is None:
+                raise Out()
+            return ev(t[2] if truth else t[3], kval, case)
+        raise Out()
+
+    INF = float('inf')
+
+    def bounds(d, case):
+        """(lo, hi) of the integer polynomial d = a*(k - r) + b*r + c over all k, r >= 0 in the case
+        ('lt': k - r <= -1 ; 'ge': k - r >= 0), or None when d has other monomials"""
+        d = dict(d)
+        if any(m not in ((), ('k',), ('r',)) for m in d):
+            return None
+        a = d.get(('k',), 0)
+        b_ = d.get(('r',), 0) + a
+        c = d.get((), 0)
+        lo = hi = c
+        if a > 0:
+            if case == 'lt':
+                lo, hi = -INF, hi - a
+            else:
+                hi = INF
+        elif a < 0:
+            if case == 'lt':
+                lo, hi = lo - a, INF
+            else:
+                lo = -INF
+        if b_ > 0:
+            hi = INF
+        elif b_ < 0:
+            lo = -INF
+        return lo, hi
+
+    def sign(d, case):
+        bd = bounds(d, case)
+        if bd is None:
+            return None
+        lo, hi = bd
+        if lo == hi == 0:
+            return 0
+        if hi < 0:
+            return -2          # strictly negative
+        if hi <= 0:
+            return -1          # <= 0
+        if lo > 0:
+            return 2
+        if lo >= 0:
+            return 1
+        return None
+
+    try:
+        zero = ev(f, pconst(0), 'lt')          # f(0): with r >= 1 ...
+        zero2 = ev(f, pconst(0), 'ge')         # ... and with r == 0
+        if zero or zero2:
+            return False
+        for case, inc in (('lt', 1), ('ge', 0)):
+            k = patom('k')
+            nxt_case = case
+            a = ev(f, padd(k, pconst(1)), case_next(case))
+            bb = ev(f, k, case)
+            d = psub(a, bb)
+            want = padd(patom('q'), pconst(inc))
+            if pkey(d) != pkey(want):
+                return False
+        return True
+    except Out:
+        return None
+
+
+def case_next(case):
+    """evaluating at k + 1 under the case on k: k < r  =>  k + 1 <= r, handled inside sign() through the polynomial itself"""
+    return case
